@@ -47,7 +47,9 @@ func ParseConfig() (*Config, error) {
 		c.ZMQConfig = &ZMQConfig{}
 	}
 
-	c.ParseBlocklists()
+	if err := c.ParseBlocklists(); err != nil {
+		return nil, fmt.Errorf("failed to load config (%s): %v", envPath, err)
+	}
 
 	return &c, nil
 }
